@@ -717,25 +717,25 @@ def run_sw_resolvent(case):
 
 SUBCHECKS = [
     Subcheck('pe_resolvent', run_pe_resolvent, strategy=lambda tier: _pe_case(tier),
-             examples={'quick': 72, 'thorough': 720}, shards={'quick': 6, 'thorough': 12},
+             examples={'quick': 72, 'thorough': 1440}, shards={'quick': 6, 'thorough': 12},
              wall={'quick': 400.0, 'thorough': 1800.0}, weight=5,
              rule='non-trivial = >= 2 layers and (uneven levels or non-constant T_ref or eta < 0), cond < 1e10',
              doc='implicit_inverse (split / stacked / blockwise; with-time; time-reversed) == float64 reference solve of '
                  'I - eta*A with A extracted from implicit_terms; round trip; methods agree; locality; pass-through'),
     Subcheck('pe_implicit_operator', run_pe_operator, strategy=_pe_operator_case,
-             examples={'quick': 40, 'thorough': 400}, shards={'quick': 4, 'thorough': 8},
+             examples={'quick': 40, 'thorough': 800}, shards={'quick': 4, 'thorough': 8},
              wall={'quick': 400.0, 'thorough': 1800.0}, weight=4,
              rule='non-trivial = >= 2 layers and (uneven levels or non-constant T_ref or eta < 0)',
              doc='implicit_terms operator for every vertical_matmul_method == documented G / H / R T_ref / dsigma blocks; '
                  'linear, local in (m, l), m-independent; zero tendency of vorticity, tracers, sim_time'),
     Subcheck('temperature_implicit_dense_vs_sparse', run_dense_sparse, strategy=_dense_sparse_case,
-             examples={'quick': 150, 'thorough': 2500}, shards={'quick': 2, 'thorough': 6},
+             examples={'quick': 150, 'thorough': 5000}, shards={'quick': 2, 'thorough': 6},
              wall={'quick': 400.0, 'thorough': 1500.0}, weight=2,
              rule='non-trivial = at least 3 layers of different thickness',
              doc='get_temperature_implicit / get_geopotential_diff: dense == sparse == loop reference of the documented '
                  'H and G matrices'),
     Subcheck('sw_resolvent', run_sw_resolvent, strategy=_sw_case,
-             examples={'quick': 48, 'thorough': 480}, shards={'quick': 3, 'thorough': 6},
+             examples={'quick': 48, 'thorough': 960}, shards={'quick': 3, 'thorough': 6},
              wall={'quick': 400.0, 'thorough': 1500.0}, weight=3,
              rule='non-trivial = eta < 0 or >= 2 layers with different reference potentials, cond < 1e10',
              doc='ShallowWaterEquations.implicit_inverse (and its time-reversed wrapper) == float64 reference solve of the '
@@ -811,7 +811,7 @@ def run_pe_twins(case):
 
 SUBCHECKS.append(
     Subcheck('pe_resolvent_twins', run_pe_twins, strategy=_pe_twin_case,
-             examples={'quick': 36, 'thorough': 300}, shards={'quick': 3, 'thorough': 6},
+             examples={'quick': 36, 'thorough': 600}, shards={'quick': 3, 'thorough': 6},
              wall={'quick': 300.0, 'thorough': 2400.0}, weight=6,
              rule='non-trivial = both members of the pair were solved in one process and differ in exactly one of '
                   'radius / T_ref / kappa / R / one sigma boundary / step size / vertical matmul method',
